@@ -10,8 +10,8 @@ A_DIR = 0x10 | 0x8000 | ((stat.S_IFDIR | 0o755) << 16)
 A_LINK = 0x20 | 0x400 | 0x8000 | ((stat.S_IFLNK | 0o777) << 16)
 MT = 132000000000000000
 
-TXT = (b"The quick brown fox jumps over the lazy dog. " * 6)[:250]
-BIN = bytes((i * 7 + 3) & 0xFF for i in range(300))
+TXT_FULL = TXT = (b"The quick brown fox jumps over the lazy dog. " * 6)[:250]
+BIN_FULL = BIN = bytes((i * 7 + 3) & 0xFF for i in range(300))
 
 
 def F(name, data, attr=A_FILE, mtime=MT):
@@ -30,8 +30,9 @@ def L(name, target):
     return {"name": name, "data": target.encode(), "attr": A_LINK, "mtime": MT}
 
 
-def ref_specs():
+def ref_specs(small=False):
     """name -> (files, folders, opts, password)"""
+    TXT, BIN = (TXT_FULL[:60], BIN_FULL[:40]) if small else (TXT_FULL, BIN_FULL)
     three = [F("a.txt", TXT), F("dir/b.bin", BIN), F("c", b"x")]
     S = {}
     S["copy"] = (three, [{"coders": [{"m": RC.M_COPY}], "n": 3}], {"header": "raw"}, None)
@@ -53,6 +54,7 @@ def ref_specs():
     S["multi2-lzma"] = (multi, [{"coders": [{"m": RC.M_LZMA}], "n": 2}, {"coders": [{"m": RC.M_LZMA2}], "n": 2}], {"header": "lzma"}, None)
     mixed = [D("d"), F("d/a.txt", TXT), E("d/empty"), F("d/b.bin", BIN), L("d/l", "a.txt")]
     S["mixed"] = (mixed, [{"coders": [{"m": RC.M_LZMA2}], "n": 3}], {"header": "raw"}, None)
+    S["mixed-copy"] = (mixed, [{"coders": [{"m": RC.M_COPY}], "n": 3}], {"header": "raw"}, None)
     S["aes-lzma2"] = (three, [{"coders": [{"m": RC.M_AES, "cycles": 3}, {"m": RC.M_LZMA2}], "n": 3}], {"header": "raw"}, "pw")
     S["aes-copy"] = (three, [{"coders": [{"m": RC.M_AES, "cycles": 2}, {"m": RC.M_COPY}], "n": 3}], {"header": "raw"}, "pw")
     S["aes-hdr"] = (three, [{"coders": [{"m": RC.M_AES, "cycles": 3}, {"m": RC.M_LZMA2}], "n": 3}], {"header": "aes", "hdr_cycles": 3}, "pw")
@@ -60,8 +62,8 @@ def ref_specs():
     return S
 
 
-def build_ref(name):
-    files, folders, opts, pw = ref_specs()[name]
+def build_ref(name, small=False):
+    files, folders, opts, pw = ref_specs(small)[name]
     return RW.build([dict(f) for f in files], [dict(fo, coders=[dict(c) for c in fo["coders"]]) for fo in folders], opts, pw), opts, pw
 
 
@@ -89,11 +91,13 @@ PY_SEEDS = {
 }
 
 
-def build_py(name, members=None, sessions=1):
+def build_py(name, members=None, sessions=1, small=False):
     """py7zr-written seed -> (bytes, model dict, password)"""
     import py7zr
 
     filters, pw, hdr = PY_SEEDS[name]
+    if small:
+        members = members or [("a.txt", TXT_FULL[:60]), ("dir/b.bin", BIN_FULL[:40]), ("c", b"x")]
     members = members or [("a.txt", TXT), ("dir/b.bin", BIN), ("c", b"x")]
     bio = io.BytesIO()
     kw = {"header_encryption": True} if hdr == "encrypted" else {}
